@@ -46,6 +46,15 @@ func envU64(name string, def uint64) uint64 {
 // (C17 runs fleet profiles in the race build and only looks at C17 oracles).
 var propertyOverride = os.Getenv("LSSIM_PROPERTY")
 
+// simDepth: 1 = quick tier, 2 = thorough tier (a third of the fleet runs
+// draw a larger configuration). Part of the replay file.
+var simDepth = func() int {
+	if os.Getenv("LSSIM_DEPTH") == "2" {
+		return 2
+	}
+	return 1
+}()
+
 func checkedProperty(r *RunResult) string {
 	if propertyOverride != "" {
 		return propertyOverride
@@ -80,7 +89,7 @@ func Minimise(t *testing.T, prof *Profile, orig *RunResult, target Violation, ma
 		if trialFile != "" {
 			// should this trial kill the process, the parent can replay it
 			_ = WriteReplay(trialFile, &ReplayFile{Property: target.Property, Profile: prof.Name, RunSeed: orig.RunSeed, Index: orig.Index,
-				Oracle: "process-crash", Tape: cand})
+				Oracle: "process-crash", Tape: cand, Depth: simDepth})
 		}
 		r := RunOne(t, prof, NewReplayTape(cand, false), orig.RunSeed, orig.Index)
 		if r.HarnessErr != "" {
@@ -172,7 +181,7 @@ func replayFileFor(r *RunResult, v Violation, seed uint64, minimised bool, orig 
 	return &ReplayFile{
 		Property: v.Property, Profile: r.Profile, Seed: seed, RunSeed: r.RunSeed, Index: r.Index,
 		Oracle: v.Oracle, Signature: v.Signature, Violation: v.Msg, LogHash: r.LogHash,
-		Tape: r.tape, Events: r.log, Minimised: minimised, OrigDraws: orig,
+		Tape: r.tape, Events: r.log, Minimised: minimised, OrigDraws: orig, Depth: simDepth,
 	}
 }
 
@@ -293,6 +302,9 @@ func WorkerReplay(t *testing.T) {
 	prof := profiles[rf.Profile]
 	if prof == nil {
 		t.Fatalf("unknown profile %q", rf.Profile)
+	}
+	if rf.Depth != 0 {
+		simDepth = rf.Depth
 	}
 	if rf.Property != prof.Property {
 		// recorded by a check that reuses the profile for another property
